@@ -156,7 +156,11 @@ func (w *world) runBroker(i int, bp *brokerPlan, ln *simnet.Listener) {
 				_ = ccb.WriteControlAd(w.bg, st, ccb.NewAd(map[string]any{ccb.AttrResult: true}))
 				id := rq.connect
 				if bp.proxyID == "wrong" {
-					id = "deadbeef" + id[8:]
+					if len(id) >= 8 {
+						id = "deadbeef" + id[8:]
+					} else {
+						id = "deadbeef" + id
+					}
 				}
 				if bp.proxyID != "none" {
 					_ = ccb.WriteReverseConnect(w.bg, st, id, "req-1", "<10.0.9.9:1>")
@@ -234,6 +238,7 @@ func run(s *kernel.Sim, c *scen.Case) {
 		return l, err
 	}
 	proxied := t.Chance("proxied", 1, 4)
+	nested := !proxied && t.Chance("nested", 1, 4)
 	nb := 1 + t.Choose("nbrokers", 3)
 	var plans []*brokerPlan
 	var contacts []addresses.CCBContact
@@ -249,7 +254,13 @@ func run(s *kernel.Sim, c *scen.Case) {
 			bp.connect = "none" // an honest-looking broker that reports failure does not also connect
 		}
 		plans = append(plans, bp)
-		contacts = append(contacts, addresses.CCBContact{BrokerAddr: bp.addr, CCBID: fmt.Sprint(100 + i), Raw: fmt.Sprintf("%s#%d", bp.addr, 100+i)})
+		if nested {
+			// a nested (multi-hop) contact: the broker is itself CCB-routed, the dialer hands the
+			// whole id chain to the entry broker in one streaming request
+			contacts = append(contacts, addresses.CCBContact{BrokerAddr: fmt.Sprintf("%s#%d", bp.addr, 100+i), CCBID: "900", Raw: fmt.Sprintf("%s#%d#900", bp.addr, 100+i)})
+		} else {
+			contacts = append(contacts, addresses.CCBContact{BrokerAddr: bp.addr, CCBID: fmt.Sprint(100 + i), Raw: fmt.Sprintf("%s#%d", bp.addr, 100+i)})
+		}
 		if !bp.dead {
 			ln, err := w.net.Listen(bp.addr)
 			if err != nil {
@@ -347,6 +358,10 @@ func run(s *kernel.Sim, c *scen.Case) {
 	mode := "standard"
 	if proxied {
 		mode = "proxied"
+	}
+	if nested {
+		mode = "nested"
+		proxied = true // judged like proxied mode: the connection to return is the broker's, after the matching hello
 	}
 	var planDesc []string
 	for i, bp := range plans {
